@@ -365,6 +365,66 @@ func shrinkBig(p m.Packet) {
 	}
 }
 
+// ---- (A2) repeated Unmarshal into one receiver --------------------------------------------
+
+// c18Reuse: A is decoded into a receiver (whatever the outcome), then B is decoded into the
+// same receiver. "Repeated calls return identical results regardless of what was called
+// before": the second call must succeed exactly when decoding B into a fresh receiver does,
+// and must leave the receiver equal to the fresh one.
+type c18Reuse struct {
+	Kind m.Kind
+	A, B m.Bytes
+}
+
+var subC18Reuse = harness.NewSub("c18-unmarshal-into-used-receiver", func(c c18Reuse, _ harness.Dialect) error {
+	fresh := conv.New(c.Kind)
+	errF := fresh.Unmarshal(exactCopy(c.B))
+	used := conv.New(c.Kind)
+	_ = used.Unmarshal(exactCopy(c.A))
+	errU := used.Unmarshal(exactCopy(c.B))
+	if (errF == nil) != (errU == nil) {
+		return fmt.Errorf("%s: decoding B into a fresh receiver gives error %v, into a receiver that decoded A before gives %v\nA: %s\nB: %s", conv.GoType(c.Kind), errF, errU, hexs(c.A), hexs(c.B))
+	}
+	if errF != nil {
+		return nil
+	}
+	mf, e1 := conv.FromPion(fresh)
+	mu, e2 := conv.FromPion(used)
+	if e1 != nil || e2 != nil {
+		return fmt.Errorf("HARNESS: %v %v", e1, e2)
+	}
+	if !conv.Equal(mf, mu) {
+		return fmt.Errorf("%s: the result of Unmarshal(B) depends on what the receiver decoded before\nfresh receiver: %s\nused receiver:  %s\nA: %s\nB: %s", conv.GoType(c.Kind), conv.JSON(mf), conv.JSON(mu), hexs(c.A), hexs(c.B))
+	}
+	return nil
+})
+
+func genC18Reuse(t *rapid.T) c18Reuse {
+	k := rapid.SampledFrom(m.TypedKinds).Draw(t, "reuse.kind")
+	enc := func(label string) []byte {
+		p := gen.PacketOf(t, k)
+		shrinkBig(p)
+		p = c06Readable(p)
+		e, err := m.Encode(p, &m.EncOpts{D: gen.PionDialect})
+		if err != nil {
+			panic(err)
+		}
+		b := e.B
+		switch rapid.IntRange(0, 5).Draw(t, label+".mut") {
+		case 0:
+			gen.MutateHeader(t, b)
+		case 1:
+			gen.MutateField(t, b)
+		case 2:
+			if len(b) > 8 {
+				b = b[:rapid.IntRange(4, len(b)-1).Draw(t, label+".cut")]
+			}
+		}
+		return b
+	}
+	return c18Reuse{Kind: k, A: enc("A"), B: enc("B")}
+}
+
 // ---- (B) schedules ----------------------------------------------------------------------
 
 type c18Target struct {
@@ -558,6 +618,12 @@ func TestC18(t *testing.T) {
 			}
 		}
 		subC18A.Check(rt, c)
+	})
+	// (A2) repeated Unmarshal into one receiver
+	harness.RapidCheck(t, harness.Scale(4000, 30000), 182, func(rt *rapid.T) {
+		c := genC18Reuse(rt)
+		harness.Record(subC18Reuse.Name, c, true, "reuse:"+string(c.Kind))
+		subC18Reuse.Check(rt, c)
 	})
 }
 
